@@ -722,6 +722,18 @@ def gen_c14(tier, seed):
             bodies.append(("flip", f[:i] + bytes([rng.choice(structural)]) + f[i + 1:]))
             bodies.append(("flip", f[:i] + bytes([f[i] ^ (1 << rng.randrange(8))]) + f[i + 1:]))
         bodies.append(("valid", f))
+    # files whose size is exactly a multiple of the page size (and one byte either side), valid and cut
+    # short: however the text gets into memory, the parser must find its end (seeded change C14-4
+    # mapped the file and relied on the zero fill behind it)
+    for size in (4096, 8192, 16384):
+        for delta in (-1, 0, 1):
+            n = size + delta
+            base = b"a b;\nc (d, e);\nf { g h; }\n"
+            pad = b"// " + b"x" * 60 + b"\n"
+            body = base + pad * ((n - len(base)) // len(pad))
+            body += b"#" * 0 + b" " * (n - len(body))
+            bodies.append(("pagesize", body))
+            bodies.append(("pagesize", body[:-3] + b"{ x"))       # same size, premature end of file
     # quoted strings that end in every kind of complete, partial and unknown escape: the two passes
     # of conf_parse_string (size, then copy) must agree on where the string ends
     tails = [b"\\", b"\\x", b"\\x7", b"\\x7g", b"\\xg", b"\\x41", b"\\x4", b"\\xff", b"\\0", b"\\1", b"\\12", b"\\123",
